@@ -1,4 +1,5 @@
 import OnlVerif.Lemmas.ConserveStore
+import OnlVerif.Lemmas.ConserveTrace
 /-!
 # Concrete runs used as non-vacuity witnesses by `Props/C06.lean` and `Props/C07.lean`
 
@@ -102,3 +103,32 @@ theorem reach4 : SafeReach body 5 s0 s4 :=
   SafeReach.step reach3 (stepOK_of_noTrig body noTrig 5 s3) (stepSt_spec body 5 s3 (by decide +kernel))
 
 end ExStore
+
+namespace ExPrio
+
+/-- `PriorityResource(capacity=1)`: one burst issues `request(priority=2)` (granted at once), then `request(priority=1)`,
+`request(priority=0)`, `request(priority=1)` (queued, sorted by priority, ties in arrival order), then releases the first -/
+def body : Nat → Resume → Burst ℚ Nat := fun _ _ =>
+  .call (.request 0 2 false) fun _ => .call (.request 0 1 false) fun _ => .call (.request 0 0 false) fun _ =>
+  .call (.request 0 1 false) fun _ => .call (.release 0 2) fun _ => .ret .none
+
+def rs : Array ResRec := #[{ kind := .priority, capacity := some 1 }]
+def s0 : KState ℚ Nat := spawned rs 0
+def s1 : KState ℚ Nat := stepSt body 5 s0
+def s2 : KState ℚ Nat := stepSt body 5 s1
+def s3 : KState ℚ Nat := stepSt body 5 s2
+
+theorem noTrig : ∀ st rs, (body st rs).NoTrig := fun _ _ =>
+  .call _ _ rfl fun _ => .call _ _ rfl fun _ => .call _ _ rfl fun _ => .call _ _ rfl fun _ => .call _ _ rfl fun _ => .ret _
+
+theorem wf0 : WF s0 := spawned_wf rs 0 (queues_empty_of_all rs (by decide))
+theorem noReq0 : ∀ e, isReq s0 e = false := spawned_noReq rs 0
+theorem sorted0 : QSorted s0 := QSorted.of_empty s0 (queues_empty_of_all rs (by decide))
+
+theorem reach1 : SafeReach body 5 s0 s1 :=
+  SafeReach.step SafeReach.init (stepOK_of_noTrig body noTrig 5 s0) (stepSt_spec body 5 s0 (by decide +kernel))
+theorem reach13 : SafeReach body 5 s1 s3 :=
+  SafeReach.step (SafeReach.step SafeReach.init (stepOK_of_noTrig body noTrig 5 s1) (stepSt_spec body 5 s1 (by decide +kernel)))
+    (stepOK_of_noTrig body noTrig 5 s2) (stepSt_spec body 5 s2 (by decide +kernel))
+
+end ExPrio
